@@ -321,11 +321,23 @@ struct PieceReader {
     data: Vec<u8>,
     pos: usize,
     piece: usize,
+    /// planned failure of the application's body reader after this many bytes
+    fail_at: Option<usize>,
+    fail_panic: bool,
 }
 
 impl Read for PieceReader {
     fn read(&mut self, buf: &mut [u8]) -> std::io::Result<usize> {
-        let left = self.data.len() - self.pos;
+        let mut left = self.data.len() - self.pos;
+        if let Some(k) = self.fail_at {
+            if self.pos >= k && !buf.is_empty() {
+                if self.fail_panic {
+                    panic!("planned handler panic (response body reader)");
+                }
+                return Err(std::io::Error::new(std::io::ErrorKind::Other, "planned body failure"));
+            }
+            left = left.min(k - self.pos);
+        }
         let n = left.min(buf.len()).min(if self.piece == 0 { usize::MAX } else { self.piece });
         buf[..n].copy_from_slice(&self.data[self.pos..self.pos + n]);
         self.pos += n;
@@ -433,6 +445,8 @@ fn handle(sh: &Arc<Shared>, mut rq: Request, c: usize, m: usize) {
                 data: body,
                 pos: 0,
                 piece: a.piece,
+                fail_at: a.fail_at,
+                fail_panic: a.fail_panic,
             };
             let mut resp = Response::new(
                 StatusCode(a.status),
@@ -443,6 +457,19 @@ fn handle(sh: &Arc<Shared>, mut rq: Request, c: usize, m: usize) {
             );
             if let Some(t) = a.thr {
                 resp = resp.with_chunked_threshold(t);
+            }
+            if a.fail_panic {
+                // the application's own reader panics inside respond(): the handler unwinds
+                let depth = IN_LIB.with(|c| c.get());
+                let r = std::panic::catch_unwind(std::panic::AssertUnwindSafe(move || lib(|| rq.respond(resp))));
+                IN_LIB.with(|c| c.set(depth));
+                let (ok, err) = match r {
+                    Ok(Ok(())) => (true, String::new()),
+                    Ok(Err(e)) => (false, ekind(&e)),
+                    Err(_) => (false, "panic".to_string()),
+                };
+                world::log(format!("\"ev\":\"AnsEnd\",\"c\":{},\"m\":{},\"ok\":{},\"err\":{}", c, m, ok, js(&err)));
+                return;
             }
             let r = lib(|| rq.respond(resp));
             world::log(format!(
